@@ -59,6 +59,13 @@ def parseItem (v : Json) : Except String (Sym × Sym × Int) :=
     | _, _, _ => .error "bad composing entry"
   | _ => .error "composing entry [category, unit, exponent] expected"
 
+def jSym' (v : Json) : Except String Sym :=
+  match v with
+  | .str s => match s.toNat? with
+    | some n => pure n
+    | none => throw s!"not a symbol code: {s}"
+  | _ => throw "symbol code expected"
+
 def optField (j : Json) (k : String) : Json :=
   match j.getObjVal? k with
   | .ok v => v
@@ -115,6 +122,29 @@ def parseArg (j : Json) : Except String QExpr :=
             pure (.oq (.atom u) c cap)
           | _ => .error "bad oq"
         | _ =>
+          match j.getObjVal? "nq" with
+          | .ok (.arr a) =>
+            match a.toList with
+            | [c, u, cap] => do
+              let c ← parseAtom c
+              let u ← parseAtom u
+              let cap ← parseAtom cap
+              pure (.nq c u cap)
+            | _ => .error "bad nq"
+          | _ =>
+          match j.getObjVal? "oql" with
+          | .ok (.arr a) => do
+            let pairs ← a.toList.mapM (fun v => match v with
+              | .arr #[.str u, .str e] =>
+                match u.toNat?, e.toInt? with
+                | some u, some e => pure (u, e)
+                | _, _ => throw "bad pair"
+              | _ => throw "pair [unit, exponent] expected")
+            let cs ← getArr j "cats"
+            let cats ← cs.toList.mapM jSym'
+            let cap ← parseAtom (optField j "cap")
+            pure (.oql pairs cats cap)
+          | _ =>
           match j.getObjVal? "dq" with
           | .ok (.arr a) => do
             let items ← a.toList.mapM parseItem
@@ -158,6 +188,7 @@ def parseForm (j : Json) : Except String Form := do
     | "ctor" => pure CallKind.ctor
     | "cwq" => pure CallKind.cwq
     | "empty" => pure CallKind.empty
+    | "cwq2" => pure CallKind.cwq2
     | _ => throw s!"bad form kind {k}"
   if !(["scalar", "array", "fixed", "fraction"].contains cls) then throw s!"bad class {cls}"
   pure ⟨kind, cls, a1, a2, a3, dim, dimKw, kw⟩
